@@ -341,6 +341,7 @@ macro_rules! machine_impl {
                     let m = &mut self.core.memory;
                     m.io = IO::new();
                     m.oam_dma = None;
+                    m.oam_dma_register = 0xff;
                     m.cart_state = self.header.create_cart_state();
                     self.core.last_block_cycle_length = 0;
                 }
